@@ -612,3 +612,31 @@ func (f *frame) callFrame(st *State, pre *State, callee *ssa.Function, con *Cont
 		}
 	}
 }
+
+// runGhostAfterCall executes ghost statements anchored `after <callee>`; $ret0, $ret1, ... name
+// the results of the call.
+func (f *frame) runGhostAfterCall(st *State, c *ssa.Call, res Val) {
+	if f.con == nil || f.inlined || len(f.con.Ghosts) == 0 || st.dead {
+		return
+	}
+	sc := c.Call.StaticCallee()
+	if sc == nil {
+		return
+	}
+	anchor := "after " + sc.Name()
+	for _, g := range f.con.Ghosts {
+		if g.Anchor != anchor {
+			continue
+		}
+		env := f.specEnvInv(st)
+		switch r := res.(type) {
+		case VTuple:
+			for i, e := range r.E {
+				env.vars[fmt.Sprintf("$ret%d", i)] = e
+			}
+		default:
+			env.vars["$ret0"] = res
+		}
+		f.ghostAssign(st, env, g)
+	}
+}
